@@ -287,6 +287,11 @@ func decodeStructValueSlice(field reflect.Value, fieldType reflect.StructField, 
 
 	value = strings.Trim(value, strip)
 
+	if value == "" {
+		/* an empty field is an empty list, not a list of one empty element */
+		return nil
+	}
+
 	for _, el := range strings.Split(value, delim) {
 		el = strings.Trim(el, strip)
 
